@@ -5,7 +5,9 @@ Driver for C28.  Scenario lines (`reset`, `conn`, `presub`, `hist`) build a two-
 node B = index 1); `call op=unsubscribe user=<hex> ch=<hex> opts=<…>` runs `nodeUnsubscribe` from node B (`L`) and
 from node A (`R`), in both modes, and prints
 
-    cur L <state> R <state> fix L <state> R <state>
+    now L <state> R <state> old L <state> R <state>
+
+(`now` = `Mode.fixed`, the code as it is; `old` = `Mode.preFix`, the code before commit 770c28ff)
 
 with `<state>` = `conns=<id>[<ch>,…];… evs=<sorted events>` (channel names / reasons hex encoded, connections
 sorted by id, channels and events sorted).  The label filter evaluator below covers the operators used by the
@@ -133,7 +135,7 @@ def step (st : St) (line : String) : St × String :=
       | some o =>
         let cluster := [(st.conns.filter (·.node == 0)).map (·.conn), (st.conns.filter (·.node == 1)).map (·.conn)]
         let run (m : Mode) (i : Nat) := stateStr (nodeUnsubscribe m fm validNode cluster i user ch o)
-        (st, s!"cur L {run .current 1} R {run .current 0} fix L {run .fixed 1} R {run .fixed 0}")
+        (st, s!"now L {run .fixed 1} R {run .fixed 0} old L {run .preFix 1} R {run .preFix 0}")
     | _, _, _ => (st, "bad-op")
   | _ => (st, "bad-op")
 
